@@ -2,10 +2,10 @@ from vf import Query
 
 SRC = ["src/kernel/activity/MailboxImpl.cpp", "src/kernel/activity/CommImpl.cpp", "src/kernel/activity/ActivityImpl.cpp"]
 META = {
-    "bounds": "mailbox queue (pending or done queue) of 1..3 comms (quick: <=2), position of the first comm of the wanted type fixed per query (comms before it have the other type, or the right type with an own filter that refuses the searcher; searcher with or without a filter object), type/tag/filter of "
+    "bounds": "mailbox queue (pending or done queue) of 1..3 comms (quick: <=2), fully symbolic search (types, tags, filters, wanted type: decided path by path; quick: one queued comm, thorough: two) and, for longer queues, position of the first comm of the wanted type fixed per query (comms before it have the other type, or the right type with an own filter that refuses the searcher; searcher with or without a filter object), type/tag/filter of "
               "the comms behind it symbolic, searcher's tag symbolic; with removal; remove() of the k-th comm; "
               "copy_data: payload of 8 symbolic bytes, sizes 0..8 symbolic, missing source / missing size pointer / already-copied flags symbolic; unwind 10",
-    "outside": "evaluation of user filters with symbolic outcome (measured: not tractable), CommImpl::isend/irecv pairing through the engine, rates and network actions, detached clean-up, permanent-receiver bookkeeping (set_receiver), the s4u layer",
+    "outside": "CommImpl::isend/irecv pairing through the engine, rates and network actions, detached clean-up, permanent-receiver bookkeeping (set_receiver), the s4u layer",
     "stubs": ["xbt logging -> silent", "abort() = violation", "std::string = 'nostring' model", "copy function = harness memcpy recorder"],
     "assumptions": ["queued comms are in state WAITING as created by 'new CommImpl' + push"],
     "functions_filter": r"Mailbox|CommImpl",
@@ -16,11 +16,14 @@ def queries(tier):
     qs = []
     mq = 2 if tier == "quick" else 3
     def q(name, defs, **kw):
-        qs.append(Query(name, "C08/mailbox.cpp", "harness_mailbox", defs, SRC, unwind=10, cap_s=600, mem_gb=12, prelude=["rbtree", "nostring"], **kw))
+        qs.append(Query(name, "C08/mailbox.cpp", "harness_mailbox", defs, SRC, unwind=10, cap_s=kw.pop("cap_s", 900), mem_gb=12, prelude=["rbtree", "nostring"], **kw))
     for n in range(1, mq + 1):
         for done in (0, 1):
-            # (a fully symbolic search - symbolic types, tags and filters on every queued comm - was measured: symbolic execution does not finish
-            #  in 100 s even for one queued comm, because the matched pointer becomes symbolic and every later release explores ~CommImpl)
+            # fully symbolic search (type, tag and own filter of every queued comm, wanted type, tag and filter of the searcher): path-by-path exploration
+            tiers = ("quick", "thorough") if n == 1 else ("thorough",)
+            q(f"find_symbolic_q{n}_done{done}", dict(P_MODE=0, P_Q=n, P_REMOVE=0, P_DONE=done), paths=True, tiers=tiers)
+            q(f"find_remove_symbolic_q{n}_done{done}", dict(P_MODE=0, P_Q=n, P_REMOVE=1, P_DONE=done), paths=True, tiers=tiers)
+            # (in merge mode the fully symbolic search does not finish: the matched pointer becomes symbolic and every later release explores ~CommImpl)
             for exp in range(n):
                 for want in (0, 1):
                     for rej in range(1 << exp):
